@@ -31,10 +31,12 @@ def run(ctx):
     ctx.rule = ('random (type, value) from the universe plus forced length boundaries (127/128, 255/256, 65535/65536, 1000/1001 octets); '
                 'DER and CER bytes compared with Spec.X690.der/cer evaluated in Coq; BER (definite, indefinite, chunked) and CER bytes '
                 'read back by Spec.X690.read; non-trivial = constructed/tagged type or a forced boundary')
-    cases = codec.gen_cases(ctx, ctx.n(150, 3000), depth=3) + boundary_cases(ctx)
+    cases = codec.gen_cases(ctx, ctx.n(150, 3000), depth=3)
+    nrandom = len(cases)
+    cases += boundary_cases(ctx)
     exprs, meta = [], []
     search_only = getattr(ctx, 'search_only', False)
-    for c in cases:
+    for ci, c in enumerate(cases):
         for cdc in ('DER', 'CER'):
             e = I.run_encode(cdc, c.obj)
             ctx.case((cdc, c.cty, c.cval), c.T[0] not in ('bool', 'int', 'null'))
@@ -50,7 +52,9 @@ def run(ctx):
             if not search_only:
                 exprs.append(codec.enc_expr(cdc, True, 0, c, e))
                 meta.append({'kind': 'model', 'codec': cdc, 'T': c.T, 'v': c.v})
-        for defm, chunk in ((True, 0), (False, 0), (False, ctx.rng.choice([1, 3, 7])), ('CER', 0)):
+        # forced long strings are not cut into tiny segments (tens of thousands of TLVs)
+        small_chunk = ctx.rng.choice([1, 3, 7]) if ci < nrandom else 1000
+        for defm, chunk in ((True, 0), (False, 0), (False, small_chunk), ('CER', 0)):
             if defm == 'CER':
                 e = I.run_encode('CER', c.obj); label = 'CER'
             else:
